@@ -61,6 +61,8 @@ class Spec(core.PropSpec):
         rc = st("company")
         plan["company"] = T.gen_company(rc, w) if w["configs"] and rc.random() < 0.25 else None
         plan["overlap"] = [[rc.randint(0, 12), rc.randint(1, 4)] for _ in range(rc.randint(1, 2))] if rc.random() < 0.2 else None
+        plan["side_fault"] = dict(ci=rc.randint(0, 5), p=rc.choice([0, 0, 1, 2]), k=rc.randint(0, 5)) \
+            if w["configs"] and not plan["company"] and not plan["overlap"] and level == "sampler" and rc.random() < 0.25 else None
         if level == "loader":
             plan.update(K=ro.choice([0, 1, 2, 2, 3, 4]), prefetch=ro.choice([1, 2, 2, 3]), sched_seed=ro.getrandbits(32),
                         stall=ro.choice([None, None, 0, 1]), tagged=[ro.random() < 0.7 for _ in range(len(w["configs"]) + 1)],
@@ -72,6 +74,11 @@ class Spec(core.PropSpec):
             yield dict(plan, company=None)
         if plan.get("overlap"):
             yield dict(plan, overlap=None)
+        if plan.get("side_fault"):
+            yield dict(plan, side_fault=None)
+            for f in ("p", "k"):
+                if plan["side_fault"][f] > 0:
+                    yield dict(plan, side_fault=dict(plan["side_fault"], **{f: plan["side_fault"][f] - 1}))
         yield from T.world_candidates(plan)
         yield from super().shrink_candidates(plan)
 
@@ -118,7 +125,8 @@ class Spec(core.PropSpec):
     def _sampler_level(self, plan, w, ref, site, out):
         cap = len(ref) + 50
         try:
-            hist, terminated = T.run_sampler(w, via=plan["via"], cap=cap, company=plan.get("company"), overlap=plan.get("overlap"))
+            hist, terminated = T.run_sampler(w, via=plan["via"], cap=cap, company=plan.get("company"), overlap=plan.get("overlap"),
+                                             side_fault=plan.get("side_fault") if plan["level"] == "sampler" else None)
             if plan.get("company"):
                 out.count("fault:config_objects_shared_with_second_sampler")
             if plan.get("overlap"):
@@ -129,8 +137,21 @@ class Spec(core.PropSpec):
         except Exception as e:
             out.violate("C05:raises:" + type(e).__name__, site, f"{type(e).__name__}: {e}")
             return
-        out.events = hist
+        out.events = list(hist)
         out.count("logical:events", len(hist))
+        if ["side-sampler-fails"] in hist:
+            out.count("fault:side_sampler_fails_mid_pass")
+            loud = hist[-1] == ["raised"]
+            hist = [e for e in hist if e not in (["raised"], ["side-sampler-fails"])]
+            if loud:
+                # the failing pass cannot be whole; a stream that ends with the injected error is the acceptable outcome - everything
+                # handed out before it must be a prefix of the fault-free history
+                out.count("side_sampler_failure_ended_the_stream_loudly")
+                if any(c["kind"] == "epochperm" for c in w["configs"]):
+                    ref = T.reference(w, side_epochs=T.side_epochs_of(hist))
+                if ref[:len(hist)] != hist:
+                    out.violate("C05:side-pass-content", site, "before the injected side-sampler failure: " + str(T.first_diff(hist, ref[:len(hist)])))
+                return
         if not terminated:
             out.violate("C05:no-termination", site, f"more than {cap} indices")
             return
